@@ -303,6 +303,11 @@ def rw_model_adapters(text, only=None):
             n[0] += 1
             return rep
         text = re.sub(rx, f3, text)
+    # `io::copy(&mut R.by_ref().take(N), &mut io::sink())` -> the ASSUMED model `io::verif_copy_take_sink(R, N)` of specs/io_model.vrs
+    # (std: copy reads until EOF of the Take adapter, which yields at most N bytes of R; the sink accepts everything; the count is returned)
+    if only is None or 'copy_take_sink' in only:
+        text, k_ = re.subn(r'io::copy\(\s*&mut\s+(\w+)\.by_ref\(\)\s*\.take\(([^()]*)\)\s*,\s*&mut\s+io::sink\(\)\s*\)', r'io::verif_copy_take_sink(\1, \2)', text)
+        n[0] += k_
     return text, n[0]
 
 
@@ -596,9 +601,9 @@ def weave_fn(src, container, name, nth, opts, subs, mode, sig_only=False):
         # `//@model_adapters [a,b,..]`: all the renamings, or only the named ones (iter_map range_map cloned_max max extend sort into_iter_map)
         only_ = [arg.strip() for kind, arg, lines in subs if kind == 'model_adapters'][0]
         text, k = rw_model_adapters(text, set(only_.split(',')) if only_ else None)
-        if not k:
-            raise Undecided('anchor lost: no std adapter call (`.iter().map(`, `(a..b).map(`, `.max()`, `.extend(`) in %s::%s' % (container, name))
-        rewrites['R12'] = k
+        # (a rewrite, not a proof anchor: where no such call occurs there is nothing to rename, and Verus decides the text as it is)
+        if k:
+            rewrites['R12'] = k
     for kind, arg, lines in subs:
         if kind == 'collect_as':
             # R16: `let [mut] X: TYPE = E.collect();` -> `let [mut] X: TYPE = FN(E);` with FN the FromIterator impl that the annotated type and
